@@ -1179,6 +1179,56 @@ def linear_transform(value, unit=_DEFAULT):
                    _default_unit(unit), DType.linear_transform3))
 
 
+class DataArray:
+    """Minimal data array: data variable plus dicts of coordinate / mask variables (enough for the functions under contract)."""
+
+    def __init__(self, data=None, coords=None, masks=None, name=''):
+        self.data = data
+        self.coords = dict(coords or {})
+        self.masks = dict(masks or {})
+        self.name = name
+
+    bins = None
+
+    @property
+    def dims(self):
+        return self.data.dims
+
+    @property
+    def dim(self):
+        return self.data.dim
+
+    @property
+    def sizes(self):
+        return self.data.sizes
+
+    @property
+    def ndim(self):
+        return self.data.ndim
+
+    @property
+    def unit(self):
+        return self.data.unit
+
+    @property
+    def dtype(self):
+        return self.data.dtype
+
+    def copy(self, deep=True):
+        return DataArray(self.data.copy(deep) if deep else self.data, {k: (v.copy(deep) if deep else v) for k, v in self.coords.items()},
+                         {k: (v.copy(deep) if deep else v) for k, v in self.masks.items()}, self.name)
+
+
+class Dataset:
+    def __init__(self, data=None, coords=None):
+        self.items_ = dict(data or {})
+        self.coords = dict(coords or {})
+
+
+class DataGroup(dict):
+    pass
+
+
 # ---- the module objects ----------------------------------------------------------------------------
 class _Missing(types.ModuleType):
     def __getattr__(self, name):
@@ -1213,7 +1263,7 @@ def build_modules():
     spatial.linear_transform = linear_transform
     spatial.rotations_from_rotvecs = rotations_from_rotvecs
     for k, v in dict(
-        Unit=Unit, Variable=Var, DType=DType, DTypeError=DTypeError, DimensionError=DimensionError,
+        Unit=Unit, Variable=Var, DataArray=DataArray, Dataset=Dataset, DataGroup=DataGroup, DType=DType, DTypeError=DTypeError, DimensionError=DimensionError,
         UnitError=UnitError, CoordError=CoordError, VariancesError=VariancesError, BinEdgeError=BinEdgeError,
         VariableError=VariableError,
         units=units, constants=const, typing=typing_, spatial=spatial,
